@@ -120,7 +120,7 @@ InQuick(o) ==
 ProbeQuick(o) ==
     /\ InQuick(o) /\ o.lookup /\ o.ns = o.tpl
     /\ o.lang = "c" => (o.ext = "def" /\ o.stem = "def")
-    /\ o.lang # "c" => o.tpl = o.suptpl
+    /\ o.lang # "c" => (o.tpl = o.suptpl /\ o.gs \in {"as-needed", "only"})
 ProbeThorough(o) == o.ext = "def" /\ o.stem = "def"
 
 (* ---- abstract files.  Outputs are classes of files (all type files / all namespace files / all serialization     *)
@@ -228,7 +228,7 @@ LiTemplates ==  \* _list_inputs_only: generator.get_templates, then support_gene
     /\ pc = "li_tpl"
     /\ LET t == IF GeneratesTypes(opts) THEN {TypeTemplateInForce(opts)} ELSE {}
            r == IF ShouldGenerateSupport(opts) THEN SupResources(opts, opts.omit) ELSE {}
-           s == IF ListUserSup /\ opts.suptpl /\ r # {} THEN {"supU"} ELSE r
+           s == IF ListUserSup /\ opts.suptpl /\ r # {} THEN r \cup {"supU"} ELSE r
        IN printed' = printed \cup {InFile(f) : f \in t \cup s}
     /\ pc' = "li_dsdl"
     /\ UNCHANGED <<opts, pfile, pert, out, mode, okf, pre, cnt, res, ps>>
